@@ -25,6 +25,7 @@ _spec.loader.exec_module(H)
 
 MSG_CLASSES = [
     (r"putEntry invalid refcount", "fixation putEntry invalid refcount"),
+    (r"Int overflow", "int overflow"),
     (r"Division by zero|division by zero|divide by zero", "division by zero"),
     (r"getEntry failed|unknown entry", "fixation getEntry unknown entry"),
     (r"no such timer", "timerstore no such timer"),
@@ -48,21 +49,25 @@ def site_of(prev, ev):
         return "beginblock", "subscription-expiry"
     if prev.get("refill", 0) and prev["refill"] <= ev.get("t", 0):
         return "endblock", "monthly-refill"
-    if prev.get("ntimer", 0) > 0:
-        return "endblock", "cu-tracker-payout"
     if ev.get("ev") == "Slash":
         return "beginblock", "slash"
+    if ev.get("ev") == "NextEpoch":
+        return "beginblock", "epoch-start"
+    if prev.get("ntimer", 0) > 0:
+        return "endblock", "cu-tracker-payout"
     return "block", "plain"
 
 
+def _sig(kind, prev, ev, fam="hist"):
+    when, site = site_of(prev, ev)
+    s = "%s-panic:%s@%s" % (when, msg_class(ev.get("pmsg")), site)
+    if fam == "jump":
+        s += "+epoch-longer-than-month"
+    return s
+
+
 def make_sig(jump):
-    def _sig(kind, prev, ev):
-        when, site = site_of(prev, ev)
-        s = "%s-panic:%s@%s" % (when, msg_class(ev.get("pmsg")), site)
-        if jump:
-            s += "+epoch-longer-than-month"
-        return s
-    return _sig
+    return lambda kind, prev, ev: _sig(kind, prev, ev, "jump" if jump else "hist")
 
 
 def _what(kind, prev, ev, step):
@@ -83,20 +88,35 @@ def directed_histories():
              {"a": "PlanAdd", "plan": plan, "price": 100 if plan == "PL1" else 200}]
         h += [me, p10] * 3 + [ne, {"a": "PlanDel", "plan": plan}] + [ne] * 6 + [me, p10] * 4 + [ne]
         out.append(h)
+    # reputation decay after a long gap between epoch starts (reported by the C24 family): governance sets a small
+    # ReputationHalfLifeFactor, one relay payment with an excellence report stores a reputation, then more than
+    # ~136 half-life factors pass between two epoch starts (here 26 days with a factor of one hour)
+    out.append([{"a": "SubBuy", "creator": "C1", "cons": "C1", "plan": "PL1", "months": 2, "auto": False}, ne,
+                {"a": "ParamChange", "pkey": "halfLife", "v": 3600},
+                {"a": "RelayPay", "cons": "C1", "spec": "S1", "prov": "P1", "cu": 10}, ne,
+                me, p10, ne, me, p10, ne, ne])
     return out
 
 
 def run(ctx):
-    H.design_level(ctx, which=ctx.pick(("_sub",), ("", "_sub", "_stake")))
     counts = H.plan(ctx, "C37")
     counts = dict(counts)
-    counts["renew"] = int(counts["renew"] * 1.5)       # the bias this property asks for
-    counts["jump"] = ctx.pick(12, 60)
-    fams = H.generate(ctx, counts)
-    behs = H.flatten(fams) + directed_histories()
+    counts["renew"] = int(counts["renew"] * 1.2)       # the bias this property asks for
+    counts["jump"] = ctx.pick(8, 60)
+    fams = H.gen_and_design(ctx, counts, ctx.pick(("_sub",), ("", "_sub", "_stake")))
+    behs, families = [], []
+    for fam in H.ALL_FAMILIES:
+        for b in fams.get(fam, []):
+            behs.append(b)
+            families.append(fam)
+    for b in directed_histories():
+        behs.append(b)
+        families.append("directed")
     H.common_cov(ctx, behs)
     ctx.cov["directed_histories"] = len(directed_histories())
-    rows = H.hunt(ctx, "Trace_LavaChain_C37.cfg", behs, "hist", make_sig(False), _what)
+    # one driver run and one TLC validation for all families; family "jump" (no "epoch shorter than a month"
+    # assumption) only changes the signature suffix of what is found in it
+    rows = H.hunt(ctx, "Trace_LavaChain_C37.cfg", behs, "hist", _sig, _what, families=families)
     nblocks = sum(1 for r in rows if r["res"] == "block")
     ctx.cov["block_steps"] = nblocks
     ctx.cov["month_expiries_crossed"] = sum(
@@ -104,16 +124,6 @@ def run(ctx):
             v.get("on") and v.get("live") and v.get("exp", 0) <= rows[i]["t"] for v in rows[i - 1]["subs"].values()))
     if nblocks < 100 or ctx.cov["month_expiries_crossed"] < 10:
         raise vlib.Infra("vacuous: %d block steps, %d month expiries" % (nblocks, ctx.cov["month_expiries_crossed"]))
-    # family without the "epoch shorter than a month" assumption, validated separately (own signature suffix)
-    jb = fams.get("jump", [])
-    if jb:
-        cov_keep = {k: ctx.cov.get(k) for k in ("tx_generated", "tx_accepted", "tx_acceptance_rate", "acceptance_per_kind",
-                                                "top_rejections", "months_spanned_mean", "months_spanned_max",
-                                                "kinds_never_accepted", "tx_panics")}
-        try:
-            H.hunt(ctx, "Trace_LavaChain_C37.cfg", jb, "jump", make_sig(True), _what, live=False)
-        finally:
-            ctx.cov.update(cov_keep)
 
 
 def replay(ctx, path):
